@@ -394,7 +394,8 @@ impl Property for C08 {
                 return;
             }
             let dir = cwd.as_ref().map(|c| norm_dir(&String::from_utf8_lossy(c))).unwrap_or_default();
-            if !sc.execdir && cwd.is_some() {
+            // -exec + runs in find's own directory (an explicit `.` is the same place)
+            if !sc.execdir && cwd.is_some() && !dir.is_empty() {
                 rep.fail("C08.unexpected-cwd", format!("{}: -exec + ran in [{}]", describe(), dir));
                 return;
             }
